@@ -353,6 +353,7 @@ def r19_5b(chk):
     from . import c13
 
     c13.base_membership(chk, "R19.5")
+    c13.override_membership(chk, "R19.5")
     c13.check_identifier_form(chk, "R19.5")
 
 
